@@ -34,8 +34,8 @@ Fixpoint safe (p : list instr) (F : facts) : bool :=
     match i with
     | Conv32 c f => nmemb f (k32 (learn_pos c F)) && safe r F
     | Deref c s => nmemb s (kpresent (learn_pos c F)) && safe r F
-    | ErrIf c => safe r (learn_neg c F)
-    | RespIf _ | Call _ _ _ _ | Mut _ => safe r F
+    | ErrIf c | RespIf c => safe r (learn_neg c F)
+    | Call _ _ _ _ | Mut _ => safe r F
     end
   end.
 
@@ -77,7 +77,7 @@ Proof.
     destruct (evalc sh c) eqn:Ec; cbn [andb]; [|eapply IH; eauto].
     pose proof (learn_pos_holds c F sh Hh Ec) as [_ Hp]. rewrite (Hp _ Hm). cbn. eapply IH; eauto.
   - destruct (evalc sh c) eqn:Ec; [cbn; discriminate|]. eapply IH; [exact Hs|]. apply learn_neg_holds; assumption.
-  - destruct (evalc sh c); [cbn; discriminate|eapply IH; eauto].
+  - destruct (evalc sh c) eqn:Ec; [cbn; discriminate|]. eapply IH; [exact Hs|]. apply learn_neg_holds; assumption.
   - destruct (evalc sh c); [|eapply IH; eauto]. destruct (orc sh o); [eapply IH; eauto|]. destruct fatal; [cbn; discriminate|eapply IH; eauto].
   - eapply IH; eauto.
 Qed.
@@ -169,7 +169,7 @@ Proof.
 Qed.
 
 (* the handlers whose rejections are clean, and the two that are not (known findings) *)
-Definition quiet_handlers : list nat := [1; 4; 5; 6; 7; 8; 9; 10; 11; 12; 13; 14; 15; 16; 17].
+Definition quiet_handlers : list nat := [1; 4; 5; 6; 7; 8; 9; 10; 11; 12; 13; 14; 15; 16; 17; 18].
 Lemma quiet_handlers_ok : forallb (fun h => quiet (program h)) quiet_handlers = true.
 Proof. vm_compute. reflexivity. Qed.
 
